@@ -67,12 +67,12 @@ ASSUMPTIONS = [
 ]
 
 DEPTH = {
-    "quick": {"mc": {"issue": 3, "roots": 4}, "gen": {"issue": 3, "roots": 3}, "universe": "full"},
-    "thorough": {"mc": {"issue": 4, "roots": 5}, "gen": {"issue": 4, "roots": 4}, "universe": "wide"},
+    "quick": {"mc": {"issue": 3, "roots": 3}, "gen": {"issue": 3, "roots": 3}, "universe": "full"},
+    "thorough": {"mc": {"issue": 5, "roots": 7}, "gen": {"issue": 4, "roots": 4}, "universe": "wide"},
 }
 RANDOM = {
     "quick": [("issue", 12, 120), ("roots", 20, 120)],
-    "thorough": [("issue", 120, 250), ("roots", 200, 250)],
+    "thorough": [("issue", 150, 200), ("roots", 300, 250)],
 }
 
 
@@ -91,12 +91,14 @@ def cmd_kind(c):
 
 def history_of(rows, i):
     """outer commands of the behaviour of event i (0-based), up to the outer command that event i is (part of)"""
-    b = rows[i].get("beh")
+    def key(r):
+        return (r.get("src"), r.get("beh"))
+    b = key(rows[i])
     lo = i
-    while lo > 0 and rows[lo - 1].get("beh") == b:
+    while lo > 0 and key(rows[lo - 1]) == b:
         lo -= 1
     hi = i
-    while "via" in rows[hi]["cmd"] and hi + 1 < len(rows) and rows[hi + 1].get("beh") == b:
+    while "via" in rows[hi]["cmd"] and hi + 1 < len(rows) and key(rows[hi + 1]) == b:
         hi += 1
     return [r["cmd"] for r in rows[lo:hi + 1] if "via" not in r["cmd"]]
 
@@ -127,9 +129,8 @@ def nontrivial_key(e):
     return (c["t"], r["t"])
 
 
-def judge(name, profile, tp, meta, verdict, stats):
-    r = validate(tp, meta["events"])
-    rows = vf.read_ndjson(tp)
+def judge(tp, rows, verdict, stats):
+    r = validate(tp, len(rows))
     for e in rows:
         c, res = e["cmd"], e["res"]
         stats["nontrivial"].add(json.dumps(nontrivial_key(e)))
@@ -154,10 +155,10 @@ def judge(name, profile, tp, meta, verdict, stats):
                 raise vf.Infra("unknown predicate %r printed by CATrace" % nm)
             stats["hits"][nm] = stats["hits"].get(nm, 0) + 1
             sig = "%s:%s:%s" % (PID, nm, cmd_kind(e["cmd"]))
-            verdict.add(sig, "predicate %s rejected by TLC at %s line %d: cmd=%s impl_res=%s" % (
-                nm, name, line, json.dumps(e["cmd"])[:400], json.dumps(e["res"])[:300]),
-                {"kind": "ca-history", "profile": profile, "history": history_of(rows, line - 1), "predicate": nm})
-    return rows
+            verdict.add(sig, "predicate %s rejected by TLC at %s event %d: cmd=%s impl_res=%s" % (
+                nm, e.get("src", "trace"), line, json.dumps(e["cmd"])[:400], json.dumps(e["res"])[:300]),
+                {"kind": "ca-history", "profile": e.get("profile", "issue"), "history": history_of(rows, line - 1), "predicate": nm})
+    return r
 
 
 def run(tier):
@@ -170,29 +171,35 @@ def run(tier):
     cov = {"mc": [], "gen": [], "random": []}
     stats = {"nontrivial": set(), "issued": 0, "refused": 0, "rotations": 0, "stale_root_cas": 0, "applied_root_sets": 0,
              "manager_root_ops": 0, "hits": {}, "info": {}}
-    states = transitions = n_beh = n_events = 0
+    states = transitions = n_beh = 0
     samples = []
     try:
-        for prof in ("issue", "roots"):
-            r = vf.tlc_mc("CAMC", "mc.cfg", files={"mc.cfg": cfg_text("mc", prof, d["mc"][prof], d["universe"])}, timeout=1500,
-                          heap="8g", workers=min(8, vf.NCPU), coverage=(tier == "thorough"))
-            states += r.distinct
-            transitions += r.generated
-            zero = [z for z in r.coverage_zero if z not in ("EmitProp", "Emit")]
-            cov["mc"].append({"profile": prof, "depth": d["mc"][prof], "universe": d["universe"], "distinct": r.distinct,
-                              "generated": r.generated, "coverage_zero": zero[:20]})
-            if tier == "thorough" and any(z in ("Next", "Init") for z in zero):
-                raise vf.Infra("vacuous model run for %s: %s" % (prof, zero))
         traces = []
         for prof in ("issue", "roots"):
+            # exhaustive check of the deeper bound (the generation run below re-checks the same invariants and
+            # properties at the generation depth: CA_gen_*.cfg lists them next to EmitProp)
+            if d["mc"][prof] > d["gen"][prof]:
+                r = vf.tlc_mc("CAMC", "mc.cfg", files={"mc.cfg": cfg_text("mc", prof, d["mc"][prof], d["universe"])}, timeout=1500,
+                              heap="8g", workers=min(8, vf.NCPU), coverage=(tier == "thorough"))
+                states += r.distinct
+                transitions += r.generated
+                zero = [z for z in r.coverage_zero if z not in ("EmitProp", "Emit")]
+                cov["mc"].append({"profile": prof, "depth": d["mc"][prof], "universe": d["universe"], "distinct": r.distinct,
+                                  "generated": r.generated, "coverage_zero": zero[:20]})
+                if tier == "thorough" and zero:
+                    raise vf.Infra("vacuous model run for %s: expressions never evaluated: %s" % (prof, zero))
             g = vf.tlc_gen("CAMC", "gen.cfg", files={"gen.cfg": cfg_text("gen", prof, d["gen"][prof], d["universe"])}, timeout=1500, heap="8g")
+            states += g.distinct
+            transitions += g.generated
             behs = vf.dedup_behaviours(g.traces)
-            cov["gen"].append({"profile": prof, "depth": d["gen"][prof], "transitions": len(g.traces), "behaviours": len(behs)})
+            cov["gen"].append({"profile": prof, "depth": d["gen"][prof], "universe": d["universe"], "distinct": g.distinct,
+                               "generated": g.generated, "transitions": len(g.traces), "behaviours": len(behs),
+                               "checked": "InvOneActive PropIssue PropSerial PropRootSetAtomic"})
             bf = os.path.join(work, "beh-%s.json" % prof)
             with open(bf, "w") as f:
                 json.dump(behs, f)
             tp = os.path.join(work, "gen-%s.ndjson" % prof)
-            meta = run_harness(binary, ["replay", "-profile", prof, "-in", bf, "-out", tp])
+            meta = run_harness(binary, ["replay", "-profile", prof, "-initops", "25", "-in", bf, "-out", tp])
             traces.append(("gen:" + prof, prof, tp, meta))
         for i, (prof, n, length) in enumerate(RANDOM[tier]):
             tp = os.path.join(work, "rnd-%s.ndjson" % prof)
@@ -200,14 +207,21 @@ def run(tier):
             meta = run_harness(binary, ["random", "-profile", prof, "-seed", str(s), "-n", str(n), "-len", str(length), "-out", tp])
             traces.append(("random:" + prof, prof, tp, meta))
             cov["random"].append({"profile": prof, "histories": n, "length": length, "seed": s, "events": meta["events"]})
+        # one trace, one TLC run: events are judged independently (each carries its own pre-state)
+        rows = []
         for name, prof, tp, meta in traces:
-            rows = judge(name, prof, tp, meta, verdict, stats)
             n_beh += meta["behaviours"]
-            n_events += meta["events"]
-            for e in rows:
-                if len(samples) < 6 and e["cmd"]["t"] in ("sign", "set-roots-and-config") and "via" not in e["cmd"] \
-                        and (len(samples) % 2 == 0) == (e["res"]["t"] in ("issued", "op")):
-                    samples.append({"source": name, "cmd": e["cmd"], "impl_result": e["res"]})
+            for e in vf.read_ndjson(tp):
+                e["src"] = name
+                e["profile"] = prof
+                rows.append(e)
+        allp = os.path.join(work, "all.ndjson")
+        vf.write_ndjson(allp, rows)
+        judge(allp, rows, verdict, stats)
+        for e in rows:
+            if len(samples) < 6 and e["cmd"]["t"] in ("sign", "set-roots-and-config") and "via" not in e["cmd"] \
+                    and (len(samples) % 2 == 0) == (e["res"]["t"] == "issued" or e["res"].get("ok") == "yes"):
+                samples.append({"source": e["src"], "cmd": e["cmd"], "impl_result": e["res"]})
         # vacuity: the antecedents of the judgements must have been exercised on the real code
         for k in ("issued", "refused", "rotations", "stale_root_cas", "applied_root_sets", "manager_root_ops"):
             if stats[k] == 0:
@@ -215,8 +229,8 @@ def run(tier):
         n_new = verdict.finish()
         coverage = {
             "states": states, "transitions": transitions,
-            "traces_validated_against_impl": n_beh, "impl_steps_validated": n_events,
-            "samples": samples, "evaluations": n_events,
+            "traces_validated_against_impl": n_beh, "impl_steps_validated": len(rows),
+            "samples": samples, "evaluations": len(rows),
             "distinct_nontrivial": len(stats["nontrivial"]),
             "rule": "every transition of the bounded model (prefix-deduplicated behaviours) and seeded random histories are executed "
                     "against the real CAManager / FSM CA commands and every event is judged by TLC (CATrace); distinct_nontrivial counts "
@@ -227,12 +241,17 @@ def run(tier):
             "predicates": sorted(PREDS), "predicate_doc": DOC,
             "rejected_steps_by_predicate": stats["hits"],
             "conformance_outside_C12_view": {"predicates": sorted(INFO_PREDS), "rejected_steps": stats["info"],
-                                             "note": "honest result / index of conditional CA writes belongs to C10"},
+                                             "note": "honest result / exact index of conditional CA writes belongs to C10; a rejection "
+                                                     "here is reported as model drift (exit 2), never as a C12 violation"},
             "known_findings_matched": verdict.known_hit,
             "exhaustive": False,
         }
         vf.write_evidence(PID, tier, "model_checking", coverage, ASSUMPTIONS, time.time() - t0, n_new)
-        return 1 if n_new else 0
+        if n_new:
+            return 1
+        if stats["info"]:
+            raise vf.Infra("model drift outside C12's view (conditional CA write result/index, see C10): %s" % stats["info"])
+        return 0
     finally:
         shutil.rmtree(work, ignore_errors=True)
 
